@@ -4,6 +4,7 @@ from ..r_reaction import rule_roles, rule_sides, rule_dynamic_tables
 from ..r_readers import rule_negative_count_slices
 from ..r_reaction import rule_role_zip as _rule_role_zip
 from ..r_hygiene import rule_hygiene as _rule_hygiene
+from ..r_canon import rule_bare_string_for_reaction as _rule_bare
 from ..r_construct import rule_protocol_dunders as _rule_dunders
 from ..r_reaction import rule_hash_covers_eq as _rule_hash_eq
 
@@ -19,6 +20,7 @@ def run(ck, repo):
     rule_negative_count_slices(ck, repo, 'C15.D4-role-slices', ['chython.files.daylight.smiles:smiles'])
     _rule_role_zip(ck, repo, 'C15.D1-role-pairing', lambda f: f.module.name == 'chython.files.daylight.smiles', floor=1)
     _rule_hygiene(ck, repo, 'C15.H-dataflow-hygiene', 'C15')
+    _rule_bare(ck, repo, 'C15.D1-bare-string')
     _rule_hash_eq(ck, repo, 'C15.D3-hash-covers-eq', ['chython.periodictable.base.dynamic:DynamicElement', 'chython.containers.bonds:DynamicBond',
                                                      'chython.containers.bonds:QueryBond'])
     _rule_dunders(ck, repo, 'C15.D0-container-protocols', ['chython.containers.cgr:CGRContainer', 'chython.containers.molecule:MoleculeContainer', 'chython.containers.reaction:ReactionContainer'])
